@@ -60,6 +60,9 @@ func loadExports() {
 }
 
 func loadFull(dir string) *srcInfo {
+	if fastOn {
+		return fastLoadDirFn(dir)
+	}
 	if si, ok := srcCache[dir]; ok {
 		return si
 	}
